@@ -272,6 +272,17 @@ class ExprMixin:
         return self.merge(c, a, b)
 
     def ev_Compare(self, node, st):
+        # x == sorted(x): true exactly when x is in non-decreasing (lexicographic) order   [trusted rule, listed]
+        if len(node.ops) == 1 and isinstance(node.ops[0], ast.Eq) and isinstance(node.comparators[0], ast.Call) \
+                and isinstance(node.comparators[0].func, ast.Name) and node.comparators[0].func.id == "sorted" \
+                and len(node.comparators[0].args) == 1 and not node.comparators[0].keywords \
+                and ast.unparse(node.comparators[0].args[0]) == ast.unparse(node.left):
+            v = self.ev(node.left, st)
+            if isinstance(v, VList):
+                self.trusted_axioms.add("L == sorted(L) iff L is in non-decreasing order")
+                i = z3.Int(fresh_name("asc_i"))
+                j = z3.Int(fresh_name("asc_j"))
+                return VBool(z3.ForAll([i, j], z3.Implies(z3.And(0 <= i, i < j, j < v.n), lex_lt(v.get(i), v.get(j), False))))
         left = self.ev(node.left, st)
         res = []
         saved = list(st.guard)
